@@ -53,7 +53,7 @@ def worker(ctx, job):
         "via-symlinked-dir": (os.path.join(base, "sym-dir", "target-file"), os.path.join(base, "real-dir", "target-file"), os.path.join(base, "work")),
     }
     entries = ["link_to", "link_to_hash", "opts", "opts_hash", "opts_wrong_size", "opts_wrong_integrity", "session", "opts_size_smaller", "opts_size_zero", "session_append"]
-    partials = [0, 1, 8, 9, 16384, "all"]
+    partials = [0, 1, 8, 9, 16384, "all", "all-into-prefilled-vector"]
     events = ["none", "modify", "truncate", "extend", "remove", "replace"]
     lookups_read = [("read_sync", "read_hash_sync")] + ([("read", "read_hash")] if is_async(flavour) else [])
     for fname, (arg, real, cwd) in forms.items():
@@ -114,8 +114,8 @@ def worker(ctx, job):
                             if "ok" in rep:
                                 h = rep["ok"]["h"]
                                 if entry in ("session", "opts_size_smaller", "opts_size_zero", "session_append") and partial:
-                                    if partial == "all":
-                                        rr = srv.call({"op": "r_read_to_end", "h": h})
+                                    if partial in ("all", "all-into-prefilled-vector"):
+                                        rr = srv.call({"op": "r_read_to_end", "h": h, "prefill": 0 if partial == "all" else 5})
                                         if not ("ok" in rr and wr.data_matches(rr["ok"], data)):
                                             V.violation(res, sig + ":linker-read-wrong", "reading through the linker gave %r" % rr, replay)
                                     else:
